@@ -694,7 +694,7 @@ func genC08(c *Ctx) {
 			t0 := time.Now()
 			g.probeTruncation(s, id, enc, first)
 			t1 := time.Now()
-			g.probeCorrupt(s, id, tree, enc, seenOfType[s.goType] <= 2)
+			g.probeCorrupt(s, id, tree, enc, seenOfType[s.goType] <= 1)
 			t2 := time.Now()
 			g.probeWriterFails(s, id, val, enc)
 			c08T[0] += t1.Sub(t0)
@@ -1089,7 +1089,7 @@ func (g *c08Gen) probeCorrupt(s c08Spec, id string, tree *c08Gv, enc []byte, few
 				if !ok {
 					continue
 				}
-				if tried >= c.Scale(3, 12) {
+				if tried >= c.Scale(2, 12) {
 					break
 				}
 				tried++
